@@ -19,7 +19,7 @@ def gen_cases(rng, n):
     # (where a differently rounded scaling expression first departs from the exact floor)
     inv16807 = 1407677000
     for _ in range(n * 40):
-        mv = rng.choice([rng.rng(2, 12750000), rng.rng(2 ** 21, 2 ** 22), rng.rng(2 ** 21, 2 ** 22), rng.rng(2, 4000), 12750000, 2 ** 22])
+        mv = rng.choice([rng.rng(2, 12750000), rng.rng(2 ** 23, 12750000), rng.rng(2 ** 23, 12750000), rng.rng(2 ** 21, 2 ** 22), rng.rng(2 ** 21, 2 ** 22), rng.rng(2, 4000), 12750000, 2 ** 22])
         r = rng.choice([1, 2, 3, P - 1, P - 1, P - 1, P - 2, P - 3])
         s1 = r * pow(mv, P - 2, P) % P          # s1 * mv = r (mod P)
         s0 = s1 * inv16807 % P                   # next state of s0 is s1
@@ -71,6 +71,9 @@ def oracle(case, answer):
             bad.append("state %d maxv %d: output %d outside 0..maxv-1" % (st, mv, o))
         if mv >= 1 and s1 * mv < 2 ** 53 and o != s1 * mv // P:
             bad.append("state %d maxv %d: output %d, exact floor is %d" % (st, mv, o, s1 * mv // P))
+        # RFC 5170's reference expression, evaluated in binary64 (python floats are IEEE doubles, round to nearest even)
+        if mv >= 1 and 1 <= s1 <= P - 1 and o != int(float(s1) * float(mv) / float(P)):
+            bad.append("state %d maxv %d: output %d, RFC 5170's expression (double)s'*(double)maxv/(double)(2^31-1) gives %d" % (st, mv, o, int(float(s1) * float(mv) / float(P))))
         st = s1
     return bad
 
